@@ -18,6 +18,7 @@ pub mod c13;
 pub mod c15;
 pub mod c16a;
 pub mod c16b;
+pub mod c16c;
 pub mod c16;
 pub mod c17;
 pub mod c18;
